@@ -10,11 +10,15 @@ META = {'claimed': True,
                'C03_sha256_resume_any_hw); the self-test passes in the model so selection depends on build flags and CPU bits only. CRC32C: the CRC32 instruction at every width = bit-serial '
                'register; CRC32C_Update_SSE42 (unaligned head / aligned 8-byte body / tail; u64 and 2xu32 builds) = portable byte fold for EVERY address, state and data; the len >= 8 routing and '
                'whole streams under every configuration, address and partition give the portable result (C03_crc_stream_any_config). AES: AES-NI key expansion (128/256) and block encryption = '
-               'FIPS-197; crypto_aesctr_aesni_stream and the portable stream write the same bytes from any state satisfying the stream invariant, any two configurations and partitions agree '
-               '(C03_ctr_any_config_same_bytes); the selection logic of crypto_aes.c and crypto_aesctr.c is regenerated and proved consistent for every (CPU bit, self-test outcome). 31+ theorems, '
-               'unbounded in data, alignment and partition. Bound to the compiled code by the correspondence run: every instruction model against the real instruction on this CPU (boundary operands, '
-               'every immediate); the compiled transforms and every cpusupport configuration of sha256.c / crc32c.c / crypto_aes*.c (selection probed white-box; a silent fallback is reported) '
-               'against the models and standards; alignments 0..15, lengths around the thresholds, partitions switching paths inside one stream.',
+               'FIPS-197; crypto_aesctr_aesni_stream and the portable stream write the same bytes from any state satisfying the stream invariant, for every call length below 2^64, and any two '
+               "configurations and partitions agree (C03_ctr_any_config_same_bytes); the stream model's bookkeeping (every update of bytectr, *buflen, the block counter, pblk[15], every condition "
+               "and use-call argument) is REGENERATED from the C text as expression trees, evaluated with C integer semantics (literal types such as 15U, integer promotions, wrap at the type's "
+               'width) and proved equal to the reference arithmetic for all lengths (C03_ctr_regenerated_bookkeeping_eq_reference, C03_aesni_wholeblocks_bookkeeping_eq_reference) - hand-modelled '
+               'remain the byte loop of cipherblock_use, the __m128i statements and the helper-call skeleton (shape-checked by the translator); a real call above 2^32 bytes is executed in the '
+               'thorough tier, and in the quick tier when a proof breaks; the selection logic of crypto_aes.c and crypto_aesctr.c is regenerated and proved consistent for every (CPU bit, self-test '
+               'outcome). 33 theorems, unbounded in data, alignment and partition. Bound to the compiled code by the correspondence run: every instruction model against the real instruction on this '
+               'CPU (boundary operands, every immediate); the compiled transforms and every cpusupport configuration of sha256.c / crc32c.c / crypto_aes*.c (selection probed white-box; a silent '
+               'fallback is reported) against the models and standards; alignments 0..15, lengths around the thresholds, partitions switching paths inside one stream.',
  'level_note': 'Trusted: Coq kernel + vm_compute; the x86 instruction semantics in Accel/X86Vec.v, Sse42Crc.v, AesNi.v (validated instruction by instruction against this CPU; the SDM semantics '
                "themselves are trusted); translators x_crc.py, x_aes.py, x_accel.py; the portable AES block function is OpenSSL's (not modelled: equality is stated against FIPS-197). Only paths this "
                'host can execute are run (it has sha_ni, ssse3, sse4_2, aes); ARM paths are out of scope of the property. Print Assumptions: closed under the global context.',
